@@ -92,8 +92,13 @@ func (self *StreamDecoder) Decode(val interface{}) (err error) {
 		self.Decoder.Reset(string(self.buf[s:e]))
 		err = self.Decoder.Decode(val)
 		if err != nil {
-			self.setErr(err)
-			return
+			/* only a syntax error ends the stream, a value that does not fit the
+			 * destination (or that its unmarshaler refuses) is reported for this
+			 * call and the stream goes on behind it */
+			if _, ok := err.(SyntaxError); ok {
+				self.setErr(err)
+				return
+			}
 		}
 
 		// advance by what the decoder really consumed: the fast skipper may frame
@@ -116,6 +121,9 @@ func (self *StreamDecoder) Decode(val interface{}) (err error) {
 
 		self.scanned += int64(self.scanp)
 		self.scanp = 0
+		if err != nil {
+			return err
+		}
 	} else if self.err == nil {
 		// More() stopped at a stray ']' or '}': report it rather than
 		// returning success without consuming any input.
